@@ -44,7 +44,9 @@ CHECKS["C11"] = dict(
          "candle merged into a converted bucket is merged into its raw values; the pre-repair resume index (finding F4) is refuted; "
          "and composed with a collapsing timeframe: mgr_append cfg (tasks cfg xs) ys = tasks cfg (xs ++ ys) for the whole pipeline "
          "(collapse, convert from the resume index), any sorted raw stream and any split - and likewise for collapse, fill, convert. "
-         "Correspondence: manager with HA, with/without timeframe and fill, states compared bit for bit incl. clean values and tags.",
+         "Correspondence: manager with HA, with/without timeframe and fill, states compared bit for bit incl. clean values and tags. "
+         "Falsifier: recurrence, tags and recoverable raw values after every schedule - on a manager, on a Heikin-Ashi Hexital whose members live on two managers, "
+         "and on two indicators that were handed one and the same HeikinAshi object.",
     note="candles_lifespan in the composed pipeline statement is covered by correspondence + falsifier, not by the "
          "theorem. Axioms: none.",
     technique="Coq proof (induction over the conversion loop, resume-index lemmas) + vm_compute correspondence + falsifier",
@@ -93,12 +95,15 @@ CHECKS["C01"] = dict(
          "Heikin-Ashi together (collapse, fill, convert): a structural theorem shows that an append leaves a prefix of the stored series "
          "untouched and rebuilds the rest from fresh candles, on which both sides agree. First composite: for a parent with a pure reading "
          "function and one leaf helper (ATR over its true-range series, all obligations discharged) every chunked run ends in the "
-         "result of one successful calculate() over the whole stream. "
+         "result of one successful calculate() over the whole stream. Indicators that keep their running state in one managed helper "
+         "series (VWAP, StandardDeviation, RSI: _calculate_reading writes the helper's slot of the same candle, reads it back, may write "
+         "it again): an engine theorem for this shape (Proofs/DataSlot.v) with the per-class obligation discharged - any chunking ends in "
+         "exactly the store or the exception of one calculate() over the whole stream. "
          "The two obligations are discharged for HLA, TR, OBV, EMA, SMA, RMA, WMA, VWMA, ROC, Counter, HL, Donchian, AROON and every Amorph-wrapped analysis "
          "function (all periods >= 1, all inputs not reading the own slot). " + ENGINE_TIE +
          "Falsifier: incremental vs batch deep equality over all 27 kinds + Amorph wrappers, base/S/T/H/D timeframes, fill, HA.",
     note="Proved for leaf indicators on the base and on collapsing timeframes, with or without gap filling and Heikin-Ashi (the lifespan is not in the engine-level composition); for the "
-         "other composite kinds (managed helper series, several or nested helpers) the property is decided by correspondence + falsifier. Axioms: none.",
+         "other composite kinds (helper series with sub-indicators of their own, several or nested helpers) the property is decided by correspondence + falsifier. Axioms: none.",
     technique="Coq proof (canonical-semantics induction over the calculate loop; per-indicator causality lemmas) + vm_compute correspondence + falsifier",
     design="5/C01")
 CHECKS["C02"] = dict(
@@ -106,7 +111,7 @@ CHECKS["C02"] = dict(
          "look-ahead), appending to a calculated indicator leaves every existing candle and reading untouched (no repaint), and on a "
          "collapsing timeframe every bucket but the last (open) one keeps its readings when more candles arrive - with gap filling too (closed "
          "buckets and the fill candles between them); batch causality also for "
-         "the composite ATR (parent over its helper series). "
+         "the composite ATR (parent over its helper series), and both statements for VWAP, StandardDeviation and RSI (one managed helper series). "
          + ENGINE_TIE + "Falsifier: snapshot(t) minus the open bucket is a prefix of snapshot(t') on live appends, batch-on-prefix vs batch-on-whole.",
     note="Leaf indicators with discharged obligations (see C01); other kinds by correspondence + falsifier. Axioms: none.",
     technique="Coq proof (prefix stability of the canonical semantics) + vm_compute correspondence + falsifier", design="5/C02")
@@ -131,7 +136,8 @@ CHECKS["C05"] = dict(
          "(algebraic identity) and the standard-deviation reading is the square root of exactly that updated variance; Bollinger = "
          "SMA +/- 2 sigma and Keltner = EMA +/- multiplier*ATR as assembled from the helper readings. "
          "All eleven indicators of the property are tied by the bit-exact engine "
-         "correspondence and compared with independent reference implementations (presence exactly, values within a stated tolerance).",
+         "correspondence and compared with independent reference implementations (presence exactly, values within a stated tolerance) - computed in one batch, "
+         "fed candle by candle, and on a collapsing timeframe fed candle by candle (reference over the independently resampled candles).",
     note="TR, ATR, Counter, the threshold rule, the window extremes, the rolling-variance update and the band assemblies have theorems; "
          "that the stored mean/variance ARE those of the window along a whole stream (the identity iterated, with the helper's "
          "rounding), Donchian/HL/HLA assembly and Supertrend's ratchet are decided by correspondence + reference falsifier. Real-number axioms as for C04 (none for the Counter theorem).",
@@ -141,14 +147,14 @@ CHECKS["C06"] = dict(
          "(reals); OBV's step law (unchanged / +volume / -volume by the close) for every NumOps instance; VWAP over a whole stream = rounded "
          "ratio of the cumulative sums of volume*typical price and volume; ROC = percentage change against the input `period` steps "
          "back; the MACD line is fast EMA - slow EMA (engine model). All nine indicators: bit-exact "
-         "engine correspondence + recurrence-spec correspondence (RSI, ROC, OBV, VWAP) + independent references.",
+         "engine correspondence + recurrence-spec correspondence (RSI, ROC, OBV, VWAP) + independent references (batch, candle by candle, and candle by candle on a collapsing timeframe).",
     note="MACD, STOCH, TSI, AROON, ADX: correspondence + reference falsifier only (single-reading relations of MACD/AROON are in C10). Real-number axioms as for C04.",
     technique="Coq proof over R / generic NumOps + vm_compute correspondences + reference falsifier", design="5/C06")
 CHECKS["C07"] = dict(
     text="Theorem: every recurrence specification computes a reading from a state and the newest candle only, and the state's buffer never "
          "exceeds the indicator's window whatever the history (all NumOps instances); in the engine model, the loop of calculate() "
          "instrumented with an invocation counter (proved to return the loop's own result) makes exactly k _calculate_reading "
-         "invocations after k candles are appended to a calculated leaf indicator, whatever the history length. The specs reproduce the implementation bit for bit "
+         "invocations after k candles are appended to a calculated leaf indicator, whatever the history length - likewise for VWAP, StandardDeviation and RSI (one managed helper series). The specs reproduce the implementation bit for bit "
          "(check_spec, run in C04-C06). Falsifier: executed-line counts (line tracer; def headers and repeated reports of one line excluded) inside indicator/analysis/utils code for the "
          "same trailing appends after histories of 150/600(/2400) candles must be identical, for every kind, Hexitals, always-None readings and "
          "manager settings (timeframe with and without gap filling, Heikin-Ashi, lifespan); a difference is a violation when the work keeps "
@@ -181,7 +187,7 @@ CHECKS["C09"] = dict(
          "input on every candle - SMA, EMA, RMA, WMA, RSI return a series as long as the stream, made of None and numbers only, with no gap "
          "once a number has appeared (state invariants: SMA's window, RSI's non-negative averages; RMA's seed divisor >= 1); ROC does so "
          "when no input is zero, and a zero base is refuted with a witness (K1). " + ENGINE_TIE + "Falsifier: degenerate regimes (flat, monotone, equal closes, tiny/micro moves, zero "
-         "volume, fill candles): no exception, all values finite, no gap after the first value of each output field.",
+         "volume, fill candles), price inputs and inputs that are other readings starting late (plain and dict-valued): no exception, all values finite, no gap after the first value of each output field.",
     note="Finiteness is immediate in R; binary64 overflow is outside the theorem. Other kinds: correspondence (exceptions compared as an "
          "enum) + falsifier. Known finding K1 (ROC over a zero-valued input). Real-number axioms as for C04.",
     technique="Coq proof over R + vm_compute correspondence + falsifier on degenerate streams", design="5/C09")
@@ -192,7 +198,8 @@ CHECKS["C10"] = dict(
          "of its bounds and between them, Keltner and Bollinger band order, MACD histogram = MACD - signal, Supertrend direction/long/"
          "short/trend, Stochastic oscillator value in [0,100] for inputs between the candle's low and high; TSI's ingredients: an EMA over "
          "a series dominated by another stays dominated at the seed, at every step and through rounding, and 100*s/a lies in [-100,100] when |s| <= a; ADX's ingredients: DX in [0,100], Wilder's step keeps [0,100]. " + ENGINE_TIE +
-         "Falsifier: every relation of the property text on the implementation's output.",
+         "Falsifier: every relation of the property text on the implementation's output (also after recomputation); Counter is judged against its input on the same candle, "
+         "also as a member registered through add_indicator after the member it counts.",
     note="Stochastic k/d (averages of the oscillator), the assembly of ADX from DX (and the decay-weighted seed of its Wilder average) and of TSI from its two double-smoothed series, Donchian enclosure, the accumulation of rounding in the identities after the final rounding: "
          "correspondence + falsifier. Real-number axioms as for C04.",
     technique="Coq proof over R + vm_compute correspondence + relation falsifier", design="5/C10")
@@ -212,7 +219,7 @@ CHECKS["C13"] = dict(
          "Tie: the Hexital model (two members, the operations aimed at one of them) run "
          "against hexital.Hexital on the same histories (check_hx). Falsifier: B alone vs with A in both orders, and purge/recalculate/"
          "remove of A at the end and in the middle of the stream, incl. targeted pairs (substring names, X / X_<suffix> names, helper "
-         "families, BBANDS helpers) and members on one collapsing timeframe.",
+         "families, BBANDS helpers, siblings of one class that differ in a single parameter) and members on one collapsing timeframe.",
     note="Non-interference is proved for B without helper series (any A); for a composite B the read half is decided by correspondence "
          "+ falsifier. Axioms: none.",
     technique="Coq proof (frame theorem, reads-only theorem, simulation of the engine loop) + vm_compute correspondence of the Hexital model + falsifier", design="5/C13")
@@ -221,10 +228,11 @@ CHECKS["C14"] = dict(
          "untouched); for leaf indicators with discharged obligations calculate() is idempotent, recalculate() reproduces the store "
          "it replaced, calculate_index on a computed index (+/-) leaves the store unchanged, and every program over append/calculate/"
          "purge/recalculate/such recomputations ends in a state on which calculate() equals one calculate() over all candles appended; "
-         "calculate() is idempotent for the composite ATR as well. " + ENGINE_TIE +
+         "calculate() is idempotent for the composite ATR as well; for VWAP, StandardDeviation and RSI (one managed helper series) all of these - "
+         "idempotence, recalculate, calculate_index on a computed index, convergence of programs - are proved too (purge removes reading and helper series). " + ENGINE_TIE +
          "(incl. calculate/calculate_index/recalculate/purge sequences; every operation program also runs on the Hexital model, check_hx). Falsifier: idempotence, recalculate fixpoint, purge exactness, calculate_index "
          "on computed indices (+/-), and random programs over append/calculate/purge/recalculate/calculate_index/add/remove on Hexitals "
-         "(also members sharing helpers) ending in calculate() = batch state.",
+         "(also members sharing helpers) ending in calculate() = batch state; recalculate([name]) must leave the whole table of readings as it was.",
     note="For composite indicators and for add/remove on a Hexital, convergence of operation programs to the batch state is decided by "
          "correspondence + falsifier. Axioms: none.",
     technique="Coq proof (purge exactness, idempotence via canonical semantics) + vm_compute correspondence + program falsifier", design="5/C14")
